@@ -289,7 +289,7 @@ def _mech(step_key: str) -> str:
     return k
 
 
-def _with_watchdog(fn: Any) -> tuple[bool, Any]:
+def _with_watchdog(fn: Any, watchdog: float | None = None) -> tuple[bool, Any]:
     import threading
 
     box: dict[str, Any] = {}
@@ -302,7 +302,7 @@ def _with_watchdog(fn: Any) -> tuple[bool, Any]:
 
     th = threading.Thread(target=run, daemon=True)
     th.start()
-    th.join(WATCHDOG_S)
+    th.join(watchdog or WATCHDOG_S)
     if th.is_alive():
         return False, None
     if "exc" in box:
@@ -345,7 +345,8 @@ def run_shard(job: dict[str, Any]) -> dict[str, Any]:
             dead = False
             for pos, st in enumerate(steps):
                 expected = _solo(kind, st, solo_cache)
-                ok, tr = _with_watchdog(lambda st=st: conn.run_step(st))
+                # a worker subprocess has to start and import the library first: under load that alone can take long
+                ok, tr = _with_watchdog(lambda st=st: conn.run_step(st), 60.0 if kind == "subprocess" else None)
                 wit = {"transport": kind, "history": hist, "position": pos, "step": st["key"]}
                 if not ok:
                     conn.blocked = True
@@ -381,7 +382,7 @@ def run_shard(job: dict[str, Any]) -> dict[str, Any]:
                 else:
                     chk.skip(f"unjudged_step:{st['key']}")
                 nonce = f"n-{pos}-{st['key']}"
-                ok, ptr = _with_watchdog(lambda nonce=nonce: conn.probe(nonce))
+                ok, ptr = _with_watchdog(lambda nonce=nonce: conn.probe(nonce), 60.0 if kind == "subprocess" else None)
                 if not ok:
                     conn.blocked = True
                     pending = conn.server_pending_bytes()
